@@ -648,6 +648,10 @@ class ContextCpu(XContext):
         state = self.__dict__.copy()
         state["_kernels"] = {}
         del state["_buffers"]
+        # functions of a compiled module (set when kernels are built with
+        # OpenMP) cannot be pickled; they come back with the next build
+        state.pop("omp_set_num_threads", None)
+        state.pop("omp_get_max_threads", None)
         return state
 
     def __setstate__(self, state):
